@@ -1221,7 +1221,7 @@ def run_equiv_forms(spec, idx, ctx):
         "ProbePixelated[split]": lambda m: pm.ProbePixelated.from_params({**base, **{k: v for j, (k, v) in enumerate(m.items()) if j % 2}, "aberration_coefs": {k: v for j, (k, v) in enumerate(m.items()) if not j % 2}}, rng=0).probe_params["aberration_coefs"],
         "ProbeParametric[flat]": lambda m: pm.ProbeParametric.from_params({**base, **m}, rng=0, max_aberrations_order=2).probe_params["aberration_coefs"],
         "HyperparameterState(initial)": lambda m: dpm.HyperparameterState(initial_aberrations=m).current_aberrations(),
-        "HyperparameterState(override)": lambda m: {k: v for k, v in dpm.HyperparameterState(initial_aberrations={"C56": 1.0}).current_aberrations(m).items() if k != "C56"},
+        "HyperparameterState(override)": lambda m: dpm.HyperparameterState(initial_aberrations={}).current_aberrations(m),
     }
     f = {"kind": "equiv_forms"}
     want = _nz(exp)
